@@ -7,7 +7,7 @@ from typing import List
 
 from ..astutil import call_name, calls, enclosing_loops, kwarg, last_attr, stmt_key, txt, walk_local
 from ..cfg import CFG
-from ..flow import bound_from, iteration_independence
+from ..flow import bound_from, inline_reaching, iteration_independence
 from ..index import AnalysisError, dotted
 from ..report import Ctx
 from . import c03
@@ -131,9 +131,27 @@ def r07_4(ctx: Ctx) -> None:
     ctx.ob("R07.4", HD, repl[0] if repl else func, "get_ruleset", "rules handed on in order", ok,
            "the filtered rules are materialised in order", form=txt(repl[0])[:100] if repl else "")
     files = ctx.fn(HD, "_get_rule_files_for_strictness")
-    ok = "_STRICTNESS_LEVELS[:_STRICTNESS_LEVELS.index(strictness) + 1]" in txt(files)
+    fcfg = CFG(files)
+    param = files.args.args[0].arg if files.args.args else "strictness"
+    ok = False
+    # the levels up to and including the requested one, in the order of the fixed tuple
+    for node in ast.walk(files):
+        if isinstance(node, ast.Subscript) and txt(node.value) == "_STRICTNESS_LEVELS" and isinstance(node.slice, ast.Slice) \
+                and node.slice.lower is None and node.slice.step is None and node.slice.upper is not None:
+            stmt = next((a for a in [node] + list(_ancestors(node)) if isinstance(a, ast.stmt)), None)
+            upper = txt(inline_reaching(fcfg, stmt, node.slice.upper)) if stmt is not None else txt(node.slice.upper)
+            if upper in (f"_STRICTNESS_LEVELS.index({param}) + 1", f"1 + _STRICTNESS_LEVELS.index({param})"):
+                ok = True
+    ok = ok and not any(call_name(c) in ("sorted", "set", "reversed", "frozenset") for c in calls(files))
     ctx.ob("R07.4", HD, files, "_get_rule_files_for_strictness", "file order", ok,
            "rule files are read in the fixed strictness order (superiors must be defined before their inferiors)", form="")
+
+
+def _ancestors(node: ast.AST):
+    cur = getattr(node, "_parent", None)
+    while cur is not None:
+        yield cur
+        cur = getattr(cur, "_parent", None)
 
 
 def r07_6(ctx: Ctx) -> None:
